@@ -115,6 +115,8 @@ def run(ctx):
     r19_floored(ctx)
     r114(ctx)
     r119_views(ctx)
+    from . import c02 as _c02
+    _c02.r29(ctx, 'R1.20')
     from . import c07
     c07.r77(ctx, 'R1.18')
     from . import c17
